@@ -9,20 +9,22 @@ from . import core, irlib, c04, expr_json as EJ
 GPR = ['eax', 'ecx', 'edx', 'ebx', 'esp', 'ebp', 'esi', 'edi']
 FLAGMAP = {'nf': 'sf'}
 ARCH = (set(GPR) | {'cf', 'pf', 'af', 'zf', 'sf', 'df', 'of', 'eip', 'x87'} | {'mm%d' % i for i in range(8)} | {'xmm%d' % i for i in range(8)}
-        | {'es', 'cs', 'ss', 'ds', 'fs', 'gs'})
+        | {'es', 'cs', 'ss', 'ds', 'fs', 'gs'} | {'st%d' % i for i in range(8)})
 
 
 def name_of(n):
     """architectural name of a miasmX identifier, None for pseudo registers that are projected away"""
     n = FLAGMAP.get(n, n)
+    if n.startswith('float_st') and n[8:].isdigit():
+        return 'st' + n[8:]              # x87 data registers by stack position (X87Pos.tla)
     if n.startswith('float_') or n.startswith('reg_float'):
-        return 'x87'
+        return 'x87'                     # TOP, status / control word, environment: one item
     return n if n in ARCH else None
 
 
 def gen_ext(chk=None):
     h = hashlib.sha1()
-    for f in ('BV.tla', 'IR.tla', 'X86Sem.tla', 'X86RW.tla', 'X86RWSpace.tla', 'X86RWSpace.cfg'):
+    for f in ('BV.tla', 'IR.tla', 'X86Sem.tla', 'X86RW.tla', 'X87Pos.tla', 'X86RWSpace.tla', 'X86RWSpace.cfg'):
         h.update(open(os.path.join(core.SPEC, f), 'rb').read())
     cdir = os.path.join(core.VERIF, '.cache')
     os.makedirs(cdir, exist_ok=True)
@@ -234,7 +236,7 @@ def run(tier, chk):
         selfcheck(chk)
     chk.assumptions += ['register items at parent granularity (a partial write reads the parent)',
                         'a memory operand is projected to its address registers + one cell item named by them',
-                        'x87 stack registers, TOP and status are one item "x87"; miasmX pseudo registers (tsc, vm_exception_flags, segment ids) are dropped',
+                        'x87 data registers are items by stack position st0..st7 (X87Pos.tla: the naming of the lifter, a push / pop moves every value); TOP, status / control word and environment are one item "x87"; miasmX pseudo registers (tsc, vm_exception_flags, segment ids) are dropped',
                         'the repeat of rep-prefixed string instructions is emulated outside the lifted list (emul_full_expr): ecx is reported missing for them']
 
 
